@@ -414,6 +414,15 @@ def cases_helpers(L, tier, seed):
                 for b_ in (None, 1, mx, -1):
                     g3 = RI.GetItem('slice-slice', a_ is None, b_ is None, exclude={'ra-2d-slice-empty-row'}, row_none=(ra_ is None, rb_ is None))
                     yield g3, (lambda self, iis: self[iis]), dict(self=Rg, iis=(slice(ra_, rb_), slice(a_, b_))), ('getitem-slice-slice', lens, ra_, rb_, a_, b_)
+        # a[lo:hi, cols]: row slice x column list (the (2, M) index-array form of _convert_from_2d)
+        cv2 = RI.ConvertFrom2d(arr2d=True)
+        for ra_, rb_ in ((None, None), (0, n), (1, n), (-n, -1) if n > 1 else (0, 1), (0, 1)):
+            for cols_ in ([0], [-1], [0, 0], [0, -1, 0], [mx - 1], [min(lens) - 1, 0], [-min(lens)], [-mx], [mx], [0, mx - 1, 0]):
+                g4 = RI.GetItemList(row_none=(ra_ is None, rb_ is None))
+                yield g4, (lambda self, iis: self[iis]), dict(self=Rg, iis=(slice(ra_, rb_), list(cols_))), ('getitem-slice-list', lens, ra_, rb_, cols_)
+        for r in rs[::3]:
+            for c in cs[::(7 if tier == 'quick' else 3)]:
+                yield cv2, ram._convert_from_2d, dict(iis_ragged=np.array([r, c]), lengths=lengths.copy(), starts=starts.copy(), error_check=True), ('convert-2-row-array', lens, r, c)
         il, isl = RI.IisFromList(), RI.IisFromSlices(exclude=EXCL | ({'ra-2d-slice-empty-row'} if PROP == 'C06' else set()))
         row_sels = [list(range(n)), [n - 1], [0, 0], list(range(n))[::-1], [n - 1, 0]]
         for rows_ in row_sels:
